@@ -1,6 +1,11 @@
 package props
 
 import (
+	"fmt"
+	"go/ast"
+	"go/token"
+	"strings"
+
 	"j5verif/checker/core"
 	"j5verif/checker/rules"
 )
@@ -15,6 +20,75 @@ func C07(r *core.Run) {
 	r.Floor("R-EXT/G2", 3, "GetExtension assertions in buildProperty")
 	rules.DescriptorAffinity(r, []string{"internal/j5s/j5convert", "internal/j5s/sourcewalk", "internal/j5s/protobuild", "internal/bcl", "internal/bcl/internal/walker", "internal/bcl/internal/walker/schema", "lib/j5reflect"})
 	r.Floor("R-EXT/G4", 1, "setJ5Ext's copy loop")
+	bitSizes(r, "lib/j5reflect", "scalarReflectFromAST")
+	dependencyCompleteness(r)
 	rules.ImportPairing(r)
 	r.Floor("R-EXT/G3", 25, "one per SetExtension site in j5convert")
+}
+
+// dependencyCompleteness: SourceSummary records the dependency of every
+// reference it resolves.
+func dependencyCompleteness(r *core.Run) {
+	r.Rule("R-FLOW/deps", "SourceSummary: in the loop over the collected type references, every iteration that does not return an error appends the expanded reference to TypeDependencies; an iteration may skip the append only under a seen-set test whose key reads both the package and the schema name of the reference (two packages may export the same type name) — otherwise a package referenced only through a same-named type is never loaded and a valid file is rejected")
+	fd, pk := r.P.FuncDecl("internal/j5s/j5convert", "SourceSummary")
+	if fd == nil {
+		r.Fatal("anchor: j5convert.SourceSummary not found")
+		return
+	}
+	info := pk.TypesInfo
+	var loop *ast.RangeStmt
+	for _, st := range fd.Body.List {
+		if rs, ok := st.(*ast.RangeStmt); ok && strings.HasSuffix(core.ExprStr(rs.X), ".refs") {
+			loop = rs
+		}
+	}
+	o := r.Add("R-FLOW/deps", "j5convert.SourceSummary | dependency recorded for every reference", fd.Pos(), "type dependencies of a source file")
+	if loop == nil {
+		o.Fail("no loop over the collected references")
+		return
+	}
+	appended := false
+	bad := ""
+	for _, st := range loop.Body.List {
+		switch x := st.(type) {
+		case *ast.AssignStmt:
+			if len(x.Rhs) == 1 {
+				if c, ok := x.Rhs[0].(*ast.CallExpr); ok && core.CalleeName(info, c) == "builtin.append" && strings.HasSuffix(core.ExprStr(x.Lhs[0]), ".TypeDependencies") {
+					appended = true
+				}
+			}
+		case *ast.IfStmt:
+			if appended {
+				continue
+			}
+			// a skipping branch?
+			skips := false
+			ast.Inspect(x.Body, func(n ast.Node) bool {
+				if b, ok := n.(*ast.BranchStmt); ok && b.Tok == token.CONTINUE {
+					skips = true
+				}
+				return true
+			})
+			if !skips {
+				continue
+			}
+			key := ""
+			if as, ok := x.Init.(*ast.AssignStmt); ok && len(as.Rhs) == 1 {
+				if ix, ok := as.Rhs[0].(*ast.IndexExpr); ok {
+					key = core.ExprStr(ix.Index)
+				}
+			}
+			if !(strings.Contains(key, ".Package") && strings.Contains(key, ".Schema")) {
+				bad = fmt.Sprintf("an iteration can `continue` before the append under %s (seen-set key %q): the key does not include both package and schema", core.ExprStr(x.Cond), key)
+			}
+		}
+	}
+	switch {
+	case bad != "":
+		o.Fail("%s", bad)
+	case !appended:
+		o.Fail("the loop no longer appends to TypeDependencies at its top level")
+	default:
+		o.Auto("every non-error iteration reaches the top-level append")
+	}
 }
